@@ -49,7 +49,11 @@ MANIFEST = {
             "strengths and with MutationRate / MutationStrength adapted through the state: each instance must obey "
             "the state of its own identifier (rate 0 leaves everything unchanged, invalid own rate / strength errs, "
             "UniformMutation moves at most its own bound) and the parameter states read back must be the modelled "
-            "ones. Right level: the helpers are pure functions on small discrete data (exhaustive enumeration "
+            "ones. Parameter values are swept to the ends of their documented ranges - deviations / bounds exactly 0, "
+            "f64::MIN_POSITIVE, 1e-300, ordinary, 1e300, 1e308 and f64::MAX (given to the constructor, to siblings, or "
+            "written through MutationStrength; each required to occur), rates and probabilities -0, 5e-324, "
+            "f64::MIN_POSITIVE, 1 - 2^-53, exactly 0.5, and just outside [0, 1], DE scaling factors from 5e-324 to 2: "
+            "every documented value must be accepted and executed without Err or panic, a bound of 0 moves nothing. Right level: the helpers are pure functions on small discrete data (exhaustive enumeration "
             "decides them up to the bound), the components are stochastic (relational validation).",
     "technique": "TLA+ spec + TLC model checking (exhaustive enumeration of helper inputs) + TLC trace validation of "
                  "replayed cases and seeded random component executions",
@@ -72,6 +76,10 @@ FN_OPS = ["circular_swap", "circular_swap2", "translocate_slice", "translocate_s
 ID_COMPS = ["NormalMutation", "UniformMutation", "PartialRandomSpread", "BitFlipMutation", "PartialRandomBitstring",
             "ScrambleMutation"]                  # struct<I: Identifier>: parameter states keyed by the identifier
 STR_COMPS = ["NormalMutation", "UniformMutation"]   # ... with a MutationStrength state
+# strength ladder of the harness (variation.rs STRENGTHS / Variation.tla StTop): 0, f64::MIN_POSITIVE, 1e-300, 0.125,
+# 0.5, 2, 8, 1e300, 1e308, f64::MAX; the indices an executed instance must have been BUILT with and obeyed (8 = index 7
+# is given to siblings and adaptations only)
+ST_OWN = [1, 2, 3, 4, 5, 6, 8, 9, 10]
 LADDER_N = 21                                    # size of the harness' table of extreme genes (variation.rs LADDER)
 LADDER_SET = "{%s}" % ", ".join(str(k) for k in range(1, LADDER_N + 1))
 COMPS = ["NormalMutation", "UniformMutation", "PartialRandomSpread", "BitFlipMutation", "PartialRandomBitstring",
@@ -264,6 +272,11 @@ def run(ctx):
     comps = [r for r in recs if r.get("kind") == "comp"]
     seen = collections.Counter((r["act"]["c"], r["res"]["k"]) for r in comps)
     seen_ct = collections.Counter((r["act"]["c"], r["act"]["ctor"]) for r in comps if r["res"]["k"] == "ok")
+    # strength of an instance that ran with its own built strength and a rate that mutates (class inside or one)
+    seen_st = collections.Counter((r["act"]["c"], r["act"]["st"]) for r in comps
+                                  if r["res"]["k"] == "ok" and r["act"]["c"] in STR_COMPS
+                                  and not any(ad["w"] == 2 and ad["id"] == r["act"]["id"] for ad in r["act"]["adapt"])
+                                  and r["res"]["reg"][["Global", "A", "B"].index(r["act"]["id"])][0] in (1, 2))
     # identifier coverage: an instance under a non-default identifier next to a Global sibling whose rate is of
     # another class; an adapted instance
     ids = {"sib": collections.Counter(), "adapt": collections.Counter(), "sib_strength": collections.Counter()}
@@ -313,6 +326,9 @@ def run(ctx):
         missing = [(c, ct) for c in COMPS for ct in ctors[c] if seen_ct[(c, ct)] == 0]
         if missing:
             raise vlib.ToolError("vacuous random run: no ok-execution through constructor %s" % missing)
+        missing = [(c, st) for c in STR_COMPS for st in ST_OWN if seen_st[(c, st)] == 0]
+        if missing:
+            raise vlib.ToolError("vacuous random run: no mutating ok-execution at strength index %s" % missing)
         missing = [(k, c) for k in ids for c in (STR_COMPS if k == "sib_strength" else ID_COMPS) if ids[k][c] == 0]
         if missing:
             raise vlib.ToolError("vacuous random run: identifier scenario never executed: %s" % missing)
@@ -346,9 +362,18 @@ def run(ctx):
         "recorded executions only (float formula)" % (b["CompN"], b["CompD"]),
         "constructors: the table Ctors of the spec = the sweep of the harness = every pub fn of the components' "
         "inherent impl blocks in the source (compared at run time); identifiers Global, A, B",
-        "random component executions: populations 0..5 (0..6 with duplicates), dimensions 1..8 (ragged: 2..9), rates in {0, 1, inside (0,1), outside [0,1]}, "
-        "strengths in {0.125, 0.5, 2, 8, NaN}; real populations of ArithmeticCrossover from the box [-4,12) or from "
-        "the table of extreme values",
+        "random component executions: populations 0..5 (0..6 with duplicates), dimensions 1..8 (ragged: 2..9), rates in "
+        "{0, -0, 1, inside (0,1) incl. 5e-324, f64::MIN_POSITIVE, 1e-300, 1 - 2^-53 and exactly 0.5, outside [0,1] incl. "
+        "1 + 2^-52, -5e-324, +-f64::MAX}, std_dev / bound in {0, f64::MIN_POSITIVE, 1e-300, 0.125, 0.5, 2, 8, 1e300, "
+        "1e308, f64::MAX, NaN} (every finite non-negative value is a documented deviation / bound: the documentation "
+        "describes N(0, std_dev) and [-bound, bound] and the guard is `bound >= 0`), DE scaling f in {5e-324, "
+        "f64::MIN_POSITIVE, 1e-300, 1e-17, 0.5, 1, 2} (documented (0, 2]); real populations of the mutations from the "
+        "box [-4,12) with every fifth coordinate exactly 0, of ArithmeticCrossover from the box or from the table of "
+        "extreme values",
+        "a NormalMutation with a deviation >= 1e308 produces infinite coordinates by plain arithmetic (deviation times "
+        "a normal deviate); C13 says nothing about that, so finiteness is demanded below that deviation only; the "
+        "move of a UniformMutation is compared with the ladder up to 4 ulp of the larger of the old and the new "
+        "coordinate (exactly for a coordinate that was 0)",
         "InversionMutation/TranslocationMutation/SwapMutation exercised for dimension >= 2",
     ]
     return ctx.finish(RULE)
